@@ -360,6 +360,7 @@ func tt(atoms []string, f func(a map[string]bool) bool) string {
 
 func c15(c *Ctx) {
 	defer c15intervalLoops(c)
+	defer c.searchResultKind("R15.6")
 	P, R := c.P, c.R
 	R.Explain("R15.1", "exhaustiveness and agreement of the key tables: the type switch of buildSearchOp has a case for every concrete type implementing command.SearchKey; every case calls the builder for that key; handleSearchKey (and the sequence-set / list / NOT / OR productions) allocates every such type, and each keyword constant that guards an allocation is the lower-cased name of the type it allocates.")
 	R.Explain("R15.2", "declared needs: the searchData fields a key's closure reads are populated — buildSearchData fills a field only under a needs* flag, so the options given to newBuildSearchOpResult must set the flag of every field the closure reads (derived from buildSearchData and the options' apply methods, not listed by hand); an option that enables a field computed from another (header from literal) also enables that one; composite builders merge the needs of every child they evaluate.")
@@ -790,44 +791,6 @@ func c15(c *Ctx) {
 			R.Check(okRet, "R15.3", c.name(search)+"|result is the index-ordered slice filtered", P.Pos(search.Pos()), "success return yields xslices.Filter(result)", "Search no longer returns the filtered index-ordered slice: order/duplicates are not guaranteed by construction")
 		}
 		R.Min("R15.3", "parallel evaluation sites", np, 1)
-		// UID SEARCH maps to UIDs, SEARCH to sequence numbers
-		for _, b := range search.Blocks {
-			iff := engine.IfOf(b)
-			if iff == nil {
-				continue
-			}
-			call, ok := iff.Cond.(*ssa.Call)
-			if !ok || call.Call.StaticCallee() == nil || engine.ShortName(call.Call.StaticCallee()) != "IsUID" {
-				continue
-			}
-			for si, want := range []string{"UID", "Seq"} {
-				got := ""
-				for _, bb := range search.Blocks {
-					if !engine.EdgeDominates(b, si, bb) {
-						continue
-					}
-					for _, in := range bb.Instrs {
-						var fn *ssa.Function
-						if st, ok := in.(*ssa.Store); ok {
-							fn = engine.FuncValue(st.Val)
-						}
-						if fn == nil {
-							continue
-						}
-						for _, ret := range engine.Returns(fn) {
-							got = descr(engine.ResultOf(ret, 0), 0)
-						}
-					}
-				}
-				if got == "" {
-					// phi form: closure values flow through a phi, find by successor block
-					for _, in := range b.Succs[si].Instrs {
-						_ = in
-					}
-				}
-				R.Check(strings.HasSuffix(got, "."+want+")") || strings.HasSuffix(got, "."+want), "R15.3", fmtf("%s|IsUID=%v maps to %s", c.name(search), si == 0, want), P.Pos(iff.Pos()), "the mapping closure returns the "+want+" of the matched message", "with IsUID="+fmt.Sprint(si == 0)+" the result is mapped through "+got+" instead of the message's "+want)
-			}
-		}
 	}
 
 	// ---- R15.4 ------------------------------------------------------------------------
